@@ -452,7 +452,9 @@ class ScaledInteger(HasUnit, DataType):
             raise WrongTypeError(f'can not convert {shortrepr(value)} to a scaled integer') from None
         except OverflowError:  # inf
             raise RangeError(f'{shortrepr(value)} is out of range') from None
-        return float(intval * self.scale)   # return 'actual' value (which is more discrete than a float)
+        # return 'actual' value (which is more discrete than a float)
+        # the product might exceed the float range by rounding: map to a finite value like FloatRange does
+        return clamp(-sys.float_info.max, float(intval * self.scale), sys.float_info.max)
 
     def validate(self, value, previous=None):
         # convert
